@@ -577,6 +577,13 @@ def verifyMulti [DecidableEq H] (A : HashAlg H) (rc : RCfg) (root : H) (first : 
           | none => .err
           | some f => if f.phash A = root then .ok (hasRightPT t2 last) else .err
 
+/-- `VerifyRangeProof(root, first, keys, values, nil)`: no edge proof, the list is the whole trie —
+the entries are inserted into an empty trie and the root compared. -/
+def verifyAll [DecidableEq H] (A : HashAlg H) (root : H) (height : Nat) (kvs : List (Path × H)) : RRes :=
+  if kvs.any (fun kv => decide (kv.2 = A.zero)) then .err
+  else if !keysNonDecreasing kvs then .err
+  else if (embed (build height kvs)).phash A = root then .ok false else .err
+
 /-- the value the claimed entries give to `k`: the last entry with that key (`Update` in order) -/
 def lastVal (kvs : List (Path × H)) (k : Path) : Option H :=
   ((kvs.filter (fun kv => kv.1 = k)).getLast?).map (·.2)
